@@ -133,6 +133,7 @@ class World:
 
 def spectrum(mn, mx, bins, base=None):
     from raysect.optical import Spectrum
+    assert mn > 0, 'generator produced a window with non-positive wavelengths'
     s = Spectrum(mn, mx, bins)
     if base is not None:
         s.samples[:] = base
@@ -361,6 +362,7 @@ class Run:
         self.rng = ctx.rng
         self.lines = []          # driver input
         self.pending = []        # (line index, kind, implementation samples, floor, description)
+        self.sampled = set()
         self.W = World()
         from raysect.core import Point3D, Vector3D
         self.P = Point3D(0.1, 0.2, 0.3)
@@ -371,7 +373,10 @@ class Run:
         self.lines.append(line)
         self.pending.append((len(self.lines) - 1, kind, impl, floor, desc))
         self.ctx.count('K:' + kind)
-        self.ctx.case(key=('K', kind) + tuple(key), sample=dict(stream=kind, input=desc) if self.rng.random() < 0.004 else None)
+        want = kind in ('gl', 'll', 'gq', 'm-zt', 'm-stark', 'mse') and kind not in self.sampled and len(self.lines) % 7 == 3
+        if want:
+            self.sampled.add(kind)
+        self.ctx.case(key=('K', kind) + tuple(key), sample=dict(stream=kind, input=desc, implementation_head=impl[:4]) if want else None)
 
     def cmd(self, line):
         self.lines.append(line)
@@ -573,6 +578,9 @@ def stream_lorentz(run, n):
             bins = 1
             dl = fw * rng.choice([0.5, 2, 5, 30, 200])
             mn = wl - dl * rng.uniform(-0.5, 1.5)
+        if mn <= 1.0:
+            ctx.count('skipped:non-positive-wavelength-window')
+            continue
         R = rng.choice([1.0, rng.uniform(0, 5), 10 ** rng.uniform(-3, 3)])
         if rng.random() < 0.04:
             fw = rng.choice([0.0, -0.2])
@@ -1065,6 +1073,39 @@ def stream_ratios(run, n):
                     'isolated components: total %r vs %r' % (tot, sum(c[0] for c in comps)), desc, 'ratios-total', (kind, pol))
 
 
+def stream_zeeman_structure(run, n):
+    """ZeemanStructure.__call__ (public face of the cdef evaluate) against zeemanNormalise, incl. non-positive ratio sums"""
+    from cherab.core.atomic import ZeemanStructure
+    rng = run.rng
+    for it in range(n):
+        b = rng.choice([0.0, rng.uniform(0, 10)])
+        tabs = {}
+        for key in ('pi', 'sigma_plus', 'sigma_minus'):
+            k = rng.randint(0 if key != 'pi' else 1, 6)
+            mode = rng.choice(['pos', 'pos', 'pos', 'zero', 'neg', 'mixed'])
+            rows = []
+            for _ in range(k):
+                r0 = {'pos': rng.uniform(0.01, 5), 'zero': 0.0, 'neg': -rng.uniform(0.1, 2), 'mixed': rng.uniform(-1, 1)}[mode]
+                rows.append((rng.uniform(400, 700), rng.uniform(-0.01, 0.01), r0, rng.choice([0.0, rng.uniform(0, 0.1)]) if mode == 'pos' else 0.0))
+            tabs[key] = (rows, mode)
+        mk = lambda rows: [((lambda x, a0=a0, a1=a1: a0 + a1 * x), (lambda x, r0=r0, r1=r1: r0 + r1 * x)) for a0, a1, r0, r1 in rows]
+        zs = ZeemanStructure(mk(tabs['pi'][0]), mk(tabs['sigma_plus'][0]), mk(tabs['sigma_minus'][0]))
+        for key, (rows, mode) in tabs.items():
+            arr = zs(b, key)
+            raw = [(a0 + a1 * b, r0 + r1 * b) for a0, a1, r0, r1 in rows]
+            impl = [float(t) for t in arr[0]] + [float(t) for t in arr[1]]
+            desc = dict(call='ZeemanStructure.__call__', b=b, polarisation=key, raw=raw)
+            run.k_case('zs', 'zn %d %s' % (len(raw), fs([t for wr in raw for t in wr])), impl, 0.0, desc, key=(key, mode, len(raw), f2b(b)))
+            tot = sum(r for _, r in raw)
+            if tot > 0 and raw:
+                sm = math.fsum(float(t) for t in arr[1])
+                run.s_check(abs(sm - 1.0) <= 1e-12, 'C02:ZeemanStructure:ratios-not-renormalised',
+                            'ratios returned for %s at b=%r sum to %r' % (key, b, sm), desc, 'zs-sum', (key, len(raw)))
+                okr = all(abs(float(arr[1][j]) - raw[j][1] / tot) <= 1e-12 for j in range(len(raw)))
+                run.s_check(okr and [float(t) for t in arr[0]] == [w for w, _ in raw], 'C02:ZeemanStructure:ratio-or-wavelength-altered',
+                            'normalised table %r for raw %r' % (arr.tolist(), raw), desc, 'zs-ratios', (key, len(raw)))
+
+
 # -- beam emission multiplet ----------------------------------------------------------------------------------------------
 def stream_mse(run, n):
     from cherab.core import Line
@@ -1076,7 +1117,7 @@ def stream_mse(run, n):
         e = gen_env(rng, bclass=rng.choice(['zero', 'oblique', 'oblique', 'parallel', 'large', 'perp']))
         isolated = it % 3 == 0
         energy = rng.choice([60000.0, 1000.0, rng.uniform(1e3, 1e5)])
-        btemp = rng.choice([10.0, rng.uniform(0.05, 100), 0.0]) if not isolated else rng.uniform(0.01, 0.1)
+        btemp = rng.choice([10.0, rng.uniform(0.05, 100), rng.uniform(0.05, 100), 0.0]) if not isolated else rng.uniform(0.01, 0.1)
         bdir = unit(rng)
         if e['bclass'] == 'parallel':
             k = rng.uniform(1, 5)
@@ -1210,7 +1251,7 @@ def run(ctx):
         'finite inputs; radiance >= 0; observation and beam directions non-zero (raysect raises otherwise); rest wavelength > 0',
         'bin indices are unbounded Int in the model: cases with 2*cutoff*width/delta >= 2^29 are not generated (C int cast)',
         'MultipletLineShape ratios sum to 1.0 exactly (constructor rejects anything else); ZeemanStructure ratio sums > 0; MSE ratios >= 0',
-        'BeamEmissionMultiplet with negative beam temperature (sigma = NaN) is exercised by S only (relies on the platform value of <int> NaN)',
+        'BeamEmissionMultiplet: beam temperature >= 0 (the Beam setter rejects negatives); te <= 0 or ne <= 0 returns the spectrum unchanged (the ratio functions are functions of ne) and is treated as the no-emission state',
         'Lorentzian: closed-form (2F1) normalisation and accuracy of the adaptive Gauss-Legendre rule are S-only (partial, DESIGN C02 P)']
     run_ = Run(ctx)
     run_.disagree = []
@@ -1250,6 +1291,7 @@ def run(ctx):
     stream_quadrature(run_, ctx.n(100, 1500))
     stream_models(run_, ctx.n(900, 15000))
     stream_ratios(run_, ctx.n(40, 600))
+    stream_zeeman_structure(run_, ctx.n(60, 1000))
     stream_mse(run_, ctx.n(200, 4000))
 
     outs = ctx.driver(run_.lines)
